@@ -548,7 +548,7 @@ def run(ck):
     exe = vlib.build_harness("c10_elem_h", ["c10_elem_h.c"])
     res = vlib.coq_check_properties("C10")
     broken = ck.proof_result(res, CHECKER)
-    forb = vlib.coq_forbidden_scan()
+    forb = vlib.coq_forbidden_scan("C10")
     ck.extra["forbidden_tokens"] = forb
     vlib.build_modelrun("c10")
     ck.cov["trusted_base"] = [
